@@ -64,7 +64,14 @@ impl AstCache {
                     println!("📄 Parsing file: {}", path.display());
                 }
 
-                let content = std::fs::read_to_string(path)?;
+                let content = match std::fs::read_to_string(path) {
+                    Ok(content) => content,
+                    Err(e) => {
+                        eprintln!("❌ Failed to read {}: {}", path.display(), e);
+                        // Continue processing other files even if one cannot be read
+                        continue;
+                    }
+                };
                 match syn::parse_file(&content) {
                     Ok(ast) => {
                         let parsed_file = ParsedFile::new(ast, path.to_path_buf());
